@@ -179,7 +179,8 @@ def _mk_unit(n0, niter, storage, sym, tiers, prop="C10", klist_part=10):
                 pick = alive[ctx().choose(len(alive), "refined point")]
                 for K in K_all:
                     K.maxval = 10.0 / K.factor if K is pick else 0.0
-            system = types.SimpleNamespace(periodic=rnp.array([True] * 3), pointgroup=types.SimpleNamespace(symmetrize=lambda r: r))
+            symm_calls = []
+            system = types.SimpleNamespace(periodic=rnp.array([True] * 3), pointgroup=types.SimpleNamespace(symmetrize=lambda r: (symm_calls.append(r), r)[1]))
 
             class Calc:
                 allow_grid = True
@@ -225,6 +226,8 @@ def _mk_unit(n0, niter, storage, sym, tiers, prop="C10", klist_part=10):
                 tot = tot + sreal("res_" + K.name) * K.factor
             U.ensure("returned result == sum_i factor_i * result_i", lambda: out.t == lift(tot))
             U.ensure("every K-point was evaluated exactly once", all(K.nset == 1 for K in K_all) and counter[0] == len(K_all))
+            U.ensure("irreducible K-points force the per-K symmetrisation (also when symmetrize=False is passed); without them and without symmetrize nothing is symmetrised",
+                     len(symm_calls) == (len(K_all) if sym else 0))
             U.ensure("total weight stays 1", abs(sum(K.factor for K in K_all) - 1.0) < 1e-12)
             if allow:
                 U.ensure("restart weights are written after every iteration and equal the current weights at that time",
